@@ -31,6 +31,9 @@ KINDS = [
     ('dotted', ['import @.path'], 'dotted'),
     ('future', ['from __future__ import @'], 'future'),
     ('starimp', ['from os.path import *'], 'star'),
+    ('dflt_lambda', ['def h1(k=lambda @: 0): return k', 'print(h1)'], 'lamparam'),
+    ('dflt_comp', ['def h1(k=[0 for @ in []]): return k', 'print(h1)'], 'local'),
+    ('global_assign', ['global @', '@ = 1'], 'global'),
     ('param', None, 'param'),
     ('kwonly', None, 'param'),
     ('vararg', None, 'param'),
@@ -61,6 +64,10 @@ def build(scope, kind, name, read, dotted_use):
     if kid == 'from':
         ident = 'sep' if name == 0 else '_exit'
     if sc == 'lambda' and kclass != 'param' and kid != 'walrus':
+        return None
+    if kclass == 'global' and sc not in ('function', 'method', 'nested'):
+        return None
+    if kclass == 'lamparam' and read:
         return None
     if kclass == 'param' and sc in ('module', 'class'):
         return None
@@ -135,6 +142,10 @@ def build(scope, kind, name, read, dotted_use):
     expected = []
     under = ident.startswith('_')
     in_func = sc in ('function', 'method', 'lambda', 'nested')
+    if kclass == 'lamparam':
+        in_func = True      # the binding is a parameter of a lambda wherever the lambda is written
+    if kclass == 'global':
+        never_read = False  # not a local of the function: nothing to report
     if never_read and not under:
         if in_func:
             if not (kclass == 'param' and sc == 'method'):
@@ -170,12 +181,12 @@ def _c(v, lo, hi):
 
 def check(scope: int, kind: int, name: int, read: bool, dotted_use: bool) -> bool:
     """
-    pre: 0 <= scope <= 5 and 0 <= kind <= 20 and 0 <= name <= 2
+    pre: 0 <= scope <= 5 and 0 <= kind <= 23 and 0 <= name <= 2
     post: _
     """
     PATHS[0] += 1
     from crosshair.tracers import NoTracing
-    s, k, n = _c(scope, 0, 5), _c(kind, 0, 20), _c(name, 0, 2)
+    s, k, n = _c(scope, 0, 5), _c(kind, 0, 23), _c(name, 0, 2)
     r = True if read else False
     d = True if dotted_use else False
     with NoTracing():
